@@ -368,3 +368,23 @@ func DecMode() cbor.DecMode {
 	dm, _ := cbor.DecOptions{}.DecMode()
 	return dm
 }
+
+// TV keys can be compared and identified, which lets same-typed inlined composite maps use the
+// compact encoding (atree.ComparableStorable).
+var _ atree.ComparableStorable = TV{}
+
+func (v TV) Equal(o atree.Storable) bool {
+	t, ok := o.(TV)
+	return ok && t == v
+}
+func (v TV) Less(o atree.Storable) bool {
+	t, ok := o.(TV)
+	if !ok {
+		return false
+	}
+	if v.Pay != t.Pay {
+		return v.Pay < t.Pay
+	}
+	return v.Size < t.Size
+}
+func (v TV) ID() string { return fmt.Sprintf("tv%d.%d", v.Size, v.Pay) }
